@@ -23,6 +23,7 @@ ASSUMPTIONS = ["date/time types excluded as the property states", "value corpus 
 WORKERS = {"quick": 12, "thorough": 16}
 
 _ctr = [0]
+INVALID_ON_OWN = set()  # nested classes of the pool that check_types refuses on their own (e.g. an undeclared widening)
 
 
 def pool(tier):
@@ -39,6 +40,9 @@ def pool(tier):
 
     class InnerStrict(Inner):
         n: conint(strict=True, ge=0)  # type: ignore
+
+    class InnerLoose(Inner):  # an UNDECLARED widening of the inherited field: invalid on its own, never checked on its own
+        n: Union[Int, Str]
 
     class Other(MetadataSchema):
         x: Str
@@ -59,9 +63,16 @@ def pool(tier):
         "U[Int,Str]": Union[Int, Str], "U[Int,Str,Bool]": Union[Int, Str, Bool], "U[Str,Bool]": Union[Str, Bool], "U[Int,Float]": Union[Int, Float],
         "L[Int]": List[Int], "L[Str]": List[Str], "L[U[Int,Str]]": List[Union[Int, Str]], "L[NonEmptyStr]": List[NonEmptyStr],
         "S[Int]": Set[Int], "S[Str]": Set[Str],
-        "Inner": Inner, "InnerSub": InnerSub, "InnerStrict": InnerStrict, "Other": Other, "Forbid": Forbid,
+        "Inner": Inner, "InnerSub": InnerSub, "InnerStrict": InnerStrict, "InnerLoose": InnerLoose, "L[InnerLoose]": List[InnerLoose],
+        "Opt[InnerLoose]": Optional[InnerLoose], "Other": Other, "Forbid": Forbid,
         "Opt[Inner]": Optional[Inner], "L[Inner]": List[Inner], "L[InnerSub]": List[InnerSub],
     }
+    from metador_core.schema.core import check_types
+    for nm, c in (("InnerSub", InnerSub), ("InnerStrict", InnerStrict), ("InnerLoose", InnerLoose), ("Inner", Inner), ("Other", Other), ("Forbid", Forbid)):
+        try:
+            check_types(c)
+        except (TypeError, ValueError):
+            INVALID_ON_OWN.add(nm)
     if tier == "thorough":
         extra = {}
         for k in ("Int", "Str", "NonEmptyStr", "Lit[a,b]", "U[Int,Str]", "Inner", "InnerSub", "Bool", "int"):
@@ -72,7 +83,7 @@ def pool(tier):
     return base
 
 
-CORPUS = [True, False, 0, 1, -1, 2, 3, 11, 1.5, 0.0, -2.5, 2.0, "a", "b", "c", "", " ", " a ", "1", "true", "text/plain", "00ff", "zz",
+CORPUS = [{"n": "a"}, [{"n": "a"}], True, False, 0, 1, -1, 2, 3, 11, 1.5, 0.0, -2.5, 2.0, "a", "b", "c", "", " ", " a ", "1", "true", "text/plain", "00ff", "zz",
           "sha256:00ff", "red", "b l u e", [], [1], [1, 2], ["a"], ["", "a"], [1, "a"], [True], [1.5], [[1]], {"n": 1}, {"n": -1}, {"n": 1, "m": 2},
           {"n": 1, "extra": "e"}, {"n": "1"}, {"n": True}, {"x": "y"}, {"n": 1.0}, [{"n": 1}], [{"n": 1, "m": 2}], [{"x": "y"}], [{"n": 1, "zz": 0}]]
 
@@ -184,7 +195,8 @@ def check_pair(acc, pn, P, cn, C):
                 break
     acc.case(["pair", pn, cn], nontrivial=accepted and nvalid >= 1)
     # declared override must be accepted regardless
-    if not accepted and pn != cn:
+    if not accepted and pn != cn and not any(b in pn or b in cn for b in INVALID_ON_OWN):
+        # (a pair involving a nested class that is invalid on its own is rightly refused whatever is declared for f)
         try:
             _, ChiD = make_pair(P, C, declared=True)
             check_types(ChiD)
